@@ -58,21 +58,21 @@ CLAIMED = {
         ref="DESIGN.md section 4 C05",
         note="No literal=variable lemma over the whole type structure (the per-layer contracts use the same oracle shape as C04; leaf lemmas: C10); the arguments-coercer strategy is an assumed positional gather; custom scalar parse_literal is opaque. Finding D12 (undeclared entries accepted in object literals) was found by this check and repaired in /repo (7ecd3cd). Variables nested in list/object literals are not covered by rule 5.8.5 in the code (deviation D6 of DESIGN section 5, not decided by a failing obligation here)."),
         'C06': dict(
-        text="Rule layer: each rule function under contract returns a non-empty error list EXACTLY when its June-2018 rule is broken for the arguments the document builder hands it (one equality clause gives both no_false_reject and no_false_accept): 5.8.5 (_validate_type_compatibility == AreTypesCompatible, _validate_usage == IsVariableUsageAllowed, _find_variable_by_name == first definition of that name in THIS operation), 5.5.2.3 (_validate_node, _validate_is_possible with the helper inlined, _validate_spreads), 5.7.1 directives-are-defined, 5.5.1.2 / 5.5.1.3 fragment type conditions, 5.5.1.4 fragments-must-be-used, 5.5.2.1 spread-target-defined, 5.8.2 variables-are-input-types, 5.2.2.1 lone-anonymous-operation, 5.2.3.1 single-root-field (every subscription operation checked), 5.3.1 field selections (only __typename is exempt), 5.3.3 leaf-field-selections, 5.1.1 executable-definitions, find_nodes_by_name; valid requests reach execute (_perform_query).",
+        text="Rule layer: each rule function under contract returns a non-empty error list EXACTLY when its June-2018 rule is broken for the arguments the document builder hands it (one equality clause gives both no_false_reject and no_false_accept): 5.8.5 (_validate_type_compatibility == AreTypesCompatible, _validate_usage == IsVariableUsageAllowed, _find_variable_by_name == first definition of that name in THIS operation), 5.5.2.3 (_validate_node, _validate_is_possible with the helper inlined, _validate_spreads), 5.7.1 directives-are-defined, 5.5.1.2 / 5.5.1.3 fragment type conditions, 5.5.1.4 fragments-must-be-used, 5.5.2.1 spread-target-defined, 5.8.2 variables-are-input-types, 5.2.2.1 lone-anonymous-operation, 5.2.3.1 single-root-field (every subscription operation checked), 5.3.1 field selections (only __typename is exempt), 5.3.3 leaf-field-selections, 5.1.1 executable-definitions, the uniqueness rules for arguments / fragment names / operation names / input-object fields / directives per location (reports iff some name is carried by more than one node: counting filter lemma), find_nodes_by_name; valid requests reach execute (_perform_query).",
         ref="DESIGN.md section 4 C06/C07, Appendix A",
-        note="14 of the 26 rules have their deciding functions under contract; not covered: the six uniqueness rules (need a counting lemma), values-of-correct-type, argument-names / required-arguments, directive locations / uniqueness, the cycle rule, all-variables-used / all-variable-uses-defined (recursive collectors mutate lists nested in the context: outside the engine), and the context layer of the AST builder (frame pass only, C16). Deviations D2-D4, D6, D8 are not rediscovered by an obligation; D5b and D7 were found by this check and repaired in /repo."),
+        note="19 of the 26 rules have their deciding functions under contract; not covered: variable uniqueness, values-of-correct-type, argument-names / required-arguments, directive locations / uniqueness, the cycle rule, all-variables-used / all-variable-uses-defined (recursive collectors mutate lists nested in the context: outside the engine), and the context layer of the AST builder (frame pass only, C16). Deviations D2-D4, D6, D8 are not rediscovered by an obligation; D5b and D7 were found by this check and repaired in /repo."),
     'C07': dict(
         text="The same rule functions as C06 (the equality clause is also the no_false_accept half: an ill-typed variable usage, an impossible spread at ANY site, an undefined directive / fragment target / type condition, an unused fragment, a non-input variable type, a second anonymous operation, a subscription with several root fields, an undefined field, a leaf with sub-selection ... yields an error), plus the short-circuit: parse_and_validate_query turns validator errors / any parser failure into non-empty errors and _perform_query answers such requests without calling execute, so no resolver or field-level hook runs.",
         ref="DESIGN.md section 4 C06/C07, Appendix A",
-        note="As C06: 14 of 26 rules. Findings D5b (undefined `__foo` fields accepted) and D7 (only the first subscription operation checked) were found by this check and repaired in /repo (472c241, 0f69482)."),
+        note="As C06: 19 of 26 rules. Findings D5b (undefined `__foo` fields accepted) and D7 (only the first subscription operation checked) were found by this check and repaired in /repo (472c241, 0f69482)."),
 'C08': dict(
         text="(i) list_coercer_sequentially and list_coercer_concurrently satisfy literally the same contract (positional results, every item failure gathered), extract_exceptions_from_results, coerce_variables, input_object_coercer and execute_fields merge positionally (loop invariants over zip; pointwise claim for an arbitrary index); (ii) structural obligations over the request cone: every asyncio.gather whose awaitables may raise uses return_exceptions=True (so it returns only when all of them have finished and loses no failure), no create_task / ensure_future / as_completed anywhere (every started coroutine is awaited in place).",
         ref="DESIGN.md section 4 C08",
         note="no schedule is enumerated; termination is not decided; 'none is started twice under every schedule' follows only from the once-per-call-site contracts (C01/C09/C13)."),
     'C12': dict(
-        text="_validate_schema_named_types reports at least one error exactly when some field of a type that has fields (objects AND interfaces) names an undefined type (nested loop invariants); _validate_field_type_is_same_as_interface_type equals the interface-conformance predicate (same type, non-null version of a compatible type, or possible type of a plain named interface; list / non-null interface types admit nothing else) by the recursive callee contract; reduce_type strips every wrapper; _validate (aggregator) runs every listed rule validator once and raises GraphQLSchemaError exactly when one of them reported an error; _validate_schema_root_types_exist, _validate_all_scalars_have_implementations and _validate_union_is_acceptable report exactly when their rule is broken.",
+        text="_validate_schema_named_types reports at least one error exactly when some field of a type that has fields (objects AND interfaces) names an undefined type (nested loop invariants); _validate_field_type_is_same_as_interface_type equals the interface-conformance predicate (same type, non-null version of a compatible type, or possible type of a plain named interface; list / non-null interface types admit nothing else) by the recursive callee contract; reduce_type strips every wrapper; _validate (aggregator) runs every listed rule validator once and raises GraphQLSchemaError exactly when one of them reported an error; _validate_schema_root_types_exist, _validate_all_scalars_have_implementations, _validate_union_is_acceptable, _validate_non_empty_object, _validate_type_is_an_input_types, _validate_input_type_composed_of_input_type and _validate_directive_implementation (against the documented list of eleven hooks) report exactly when their rule is broken; the six parse_*_type_extension functions register ONE extension object per `extend` definition carrying its name, directives and every declared member list.",
         ref="DESIGN.md section 4 C12, Appendix B",
-        note="Six rule functions and the aggregator are under contract; the other _validate_* rules (interfaces followed, non-empty objects, enum uniqueness, argument / input types, directive implementations), redefinition guards, extension validators and Engine.cook are not. lark raising on syntax errors is external."),
+        note="Ten rule functions, the aggregator and the extension registration are under contract; _validate_object_follow_interfaces (only its type-compatibility helper), enum-value uniqueness, _validate_arguments_have_valid_type, the redefinition guards, the extension validators and Engine.cook are not. lark raising on syntax errors is external."),
     'C13': dict(
         text="wraps_with_directives returns exactly the reversed fold of the definition list (first declared directive implementing the hook outermost, each link bound to ITS callable, ITS arguments coercer and the chain of the later ones, resolver / default adapted once); directive_executor coerces the instance's arguments once with the request context and awaits the hook exactly once with them, the next stage and the untouched rest, never running the next stage itself; resolver_executor awaits the raw resolver once without context_coercer; compute_directive_nodes yields one entry per directive instance in declaration order bound to its own node and definition; bake() of scalar, enum, enum value, input field, input object, argument, field and interface types puts the stated chain into the stated coercer (variable and literal path share one on_post_input_coercion chain; the field's on_field_execution chain wraps raw / custom default / builtin default resolver inside resolve_field); argument_coercer runs the argument chain once on a valid value; resolve_field_value_or_error: the query-side on_field_execution directives of EVERY merged field node are computed (loop invariant) and wrapped around the baked resolver, which is called exactly once with the parent value, the coerced arguments of the first node (from the coerced variable map), the caller's context and info; input / literal / output directive wrappers call their hook chain exactly when due, with the coerced value, and use what it returns; top-level variables skip type-level hooks on the literal path (already applied at variable coercion) but input-field hooks still run.",
         ref="DESIGN.md section 4 C13",
@@ -104,7 +104,7 @@ def main():
          "engines": [{"name": "pyvc", "path": "pyvc/", "serves_properties": sorted(CLAIMED),
                       "kind_free_text": "contract-based deductive verifier for a Python subset: AST -> verification conditions by forward symbolic execution, modular callee contracts, loop invariants, SMT back ends, native replay of counter-models"}],
          "checks": checks, "not_applicable": na,
-         "notes": "exit codes: 0 held, 1 violation (VIOLATION line), 2 undecided (solver unknown / function outside the subset / stale contract), 3 checker failure. known_findings.json lists recorded findings and fixes."}
+         "notes": "exit codes: 0 held, 1 violation (VIOLATION line), 2 undecided (solver unknown / function outside the subset / stale contract), 3 checker failure. quick tier: every obligation discharged by the solver portfolio. thorough tier: the same obligations with second-solver agreement (z3 4.8.12 and cvc5 both asked on the exported SMT-LIB text; a disagreement is a checker error) plus a mutation probe (built-in AST mutants of each quickly verified function must fail some obligation; reported as coverage.mutation_probe). known_findings.json lists recorded findings and fixes (D1, D5b, D7, D12: all repaired in /repo by fix: commits)."}
     json.dump(m, open(os.path.join(ROOT, 'MANIFEST.json'), 'w'), indent=1)
     try:
         import jsonschema
